@@ -106,7 +106,9 @@ SentCount(scn) == IF scn.hd.end.code = 0 \/ scn.hd.errat >= Len(scn.hd.frames)
 RespIds(scn) == [i \in 1..SentCount(scn) |-> scn.hd.frames[i].m]
 
 FrameFaulty(frames) == \E i \in DOMAIN frames : frames[i].fault # ""
-ClientFaulty(scn) == scn.cl.cut # "" \/ FrameFaulty(scn.cl.frames) \/ scn.cl.clen \in {"over", "under"}
+\* an enveloped client that ends its stream without the one message a unary / server-streaming call needs
+NoRequestMessage(scn) == Enveloped(scn.cl.form) /\ scn.cl.frames = <<>> /\ MethodInfo(scn.cl.method).stream \in {"unary", "server"}
+ClientFaulty(scn) == scn.cl.cut # "" \/ FrameFaulty(scn.cl.frames) \/ scn.cl.clen \in {"over", "under"} \/ NoRequestMessage(scn)
 HandlerFaulty(scn) ==
     \/ scn.hd.fault # ""
     \/ \E i \in 1..SentCount(scn) : scn.hd.frames[i].fault # ""
